@@ -451,6 +451,24 @@ func SelectRecv(chans ...any) int {
 	return rd[nextChoice(len(rd))]
 }
 
+// SelectRecvDefault is SelectRecv for a select with a default clause: -1 when no channel is ready.
+func SelectRecvDefault(chans ...any) int {
+	Point()
+	var rd []int
+	for i, c := range chans {
+		if readyRecv(c) {
+			rd = append(rd, i)
+		}
+	}
+	switch len(rd) {
+	case 0:
+		return -1
+	case 1:
+		return rd[0]
+	}
+	return rd[nextChoice(len(rd))]
+}
+
 // ---- clock ----
 
 var clock int64
